@@ -406,7 +406,11 @@ func RunMatryer(reg *Registration, cs *Case) (*Violation, RunStats) {
 	sim.Run()
 	st.Steps, st.Preemptions, st.Blocks = sim.Steps, sim.Preemptions, sim.Blocks
 	fired := map[string]bool{}
-	for _, mode := range cs.Modes {
+	for k, mode := range cs.Modes {
+		if k == "_workload" {
+			fired["workload:"+mode] = true
+			continue
+		}
 		if mode != "" && mode != "echo" {
 			fired["fault:func-"+mode] = true
 		}
